@@ -22,6 +22,7 @@ type c13Scenario struct {
 	reqs  []Req
 	allow bool
 	noF   bool // responses contain random filler: skip stream comparison for write-error endings
+	buf   int  // transfer buffer size (0: default 64k pooled, -1: unpooled)
 }
 
 type faultPlan struct {
@@ -67,7 +68,7 @@ func c13Run(t *testing.T, root string, sc c13Scenario, mk func() *Model, plan fa
 		}
 	}
 	synctest.Test(t, func(t *testing.T) {
-		s := startSrv(SrvOpts{Root: root, AllowWrite: sc.allow, Timeout: c13Timeout, LeafWrap: func(afero.Fs) afero.Fs { return leaf }})
+		s := startSrv(SrvOpts{Root: root, AllowWrite: sc.allow, Timeout: c13Timeout, BufSize: int64(sc.buf), LeafWrap: func(afero.Fs) afero.Fs { return leaf }})
 		c := s.Dial(nil)
 		if plan.End == "werr" {
 			c.outFailAt = plan.WFail
@@ -263,7 +264,7 @@ func c13PrefixOK(m *Model, rq Req, resp []byte) bool {
 func TestC13(t *testing.T) {
 	r := NewReporter(t)
 	defer r.Done()
-	r.Rule("9 scenarios (plain reads, generated image DVD/PS3 with lazily opened members, redump with adjacent and with both keys, 3k3y, directory enumeration with symlinks, create/write/delete, dir-size, CD reads); per scenario: fault-free run numbers the N leaf filesystem operations, then an injected error at every index, a legal short read (1 byte / half) at every Read, thorough: every pair of errors (i<j); and connection endings FIN / RST / idle timeout at every script byte position class and write failure at every response byte position class; oracles: handle ledger empty after the connection ended, connection closed, fresh connection served, responses = model answer | failure code | correct prefix + disconnect; distinct by (scenario, deviation)")
+	r.Rule("12 scenarios (plain reads with the default, a 1000-byte and no pooled transfer buffer, generated image DVD/PS3 with lazily opened members, redump with adjacent and with both keys, 3k3y, directory enumeration with symlinks, create/write/delete, dir-size, CD reads); per scenario: fault-free run numbers the N leaf filesystem operations, then an injected error (EIO, EINTR, EAGAIN) at every index, a legal short read (1 byte / half) at every Read, a short read followed by EINTR/EAGAIN at the next operations, thorough: every pair of errors (i<j); and connection endings FIN / RST / idle timeout at every script byte position class and write failure at every response byte position class; oracles: handle ledger empty after the connection ended, connection closed, fresh connection served, responses = model answer | failure code | correct prefix + disconnect; distinct by (scenario, deviation)")
 	w, objs := buildC02World(t, r)
 	defer w.Cleanup()
 	// extras: both-keys image, directory with symlinks, writable dir, CD image
@@ -309,6 +310,10 @@ func TestC13(t *testing.T) {
 		{name: "3k3y", reqs: []Req{mkReq(opOpenFile, "/k3/e.iso"), rdReq(0xF60, 300), rdcReq(2048*3-1, 4099), mkReq(opOpenFile, "/k3/d.iso"), rdReq(0xF00, 600)}},
 		{name: "listing", reqs: []Req{mkReq(opOpenDir, "/d"), noargReq(opReadDirEntry), noargReq(opReadDirEntryV2), noargReq(opReadDir), mkReq(opOpenDir, "/d"), noargReq(opReadDir), mkReq(opOpenDir, "/d"), noargReq(opReadDirEntry), noargReq(opReadDirEntry), noargReq(opReadDirEntry), noargReq(opReadDirEntry), mkReq(opOpenDir, "/plain/f1.bin"), mkReq(opOpenDir, "/nope")}},
 		{name: "upload", allow: true, reqs: []Req{mkReq(opCreateFile, "/w/n.bin"), wrReq(patBytes(3, 0, 70000)), wrReq([]byte("abc")), mkReq(opCreateFile, "/w/m.bin"), wrReq([]byte("xyz")), mkReq(opDeleteFile, "/w/n.bin"), mkReq(opMkdir, "/w/sub"), mkReq(opRmdir, "/w/sub"), mkReq(opCreateFile, "/w/old.txt")}},
+		// transfers spanning several buffer chunks: a deviation may arrive after part of a response has been sent
+		{name: "plain-buf1000", buf: 1000, reqs: []Req{mkReq(opOpenFile, "/plain/f65537.bin"), rdcReq(10, 3500), rdReq(5, 2500), rdcReq(65000, 537), mkReq(opOpenFile, "/cd.bin"), cdReq(1, 2)}},
+		{name: "plain-unpooled", buf: -1, reqs: []Req{mkReq(opOpenFile, "/plain/f65537.bin"), rdcReq(10, 40000), rdReq(5, 40000), mkReq(opOpenFile, "/cd.bin"), cdReq(1, 2)}},
+		{name: "upload-buf1000", allow: true, buf: 1000, reqs: []Req{mkReq(opCreateFile, "/w/n.bin"), wrReq(patBytes(3, 0, 3500)), wrReq([]byte("abc"))}},
 		{name: "dirsize-cd", reqs: []Req{mkReq(opGetDirSize, "/game"), mkReq(opGetDirSize, "/"), mkReq(opOpenFile, "/cd.bin"), cdReq(1, 2), cdReq(16, 1)}},
 	}
 	idx := 0
@@ -349,6 +354,8 @@ func TestC13(t *testing.T) {
 				f.Err = syscall.EIO
 			case "eintr":
 				f.Err = syscall.EINTR
+			case "eagain":
+				f.Err = syscall.EAGAIN
 			case "short1":
 				if ev.Op != "Read" || ev.N < 2 {
 					return faultPlan{}, false
@@ -364,7 +371,7 @@ func TestC13(t *testing.T) {
 		}
 		// (1) one deviation at every leaf operation index
 		for i := 0; i < N; i++ {
-			for _, kind := range []string{"err", "eintr", "short1", "shorthalf"} {
+			for _, kind := range []string{"err", "eintr", "eagain", "short1", "shorthalf"} {
 				idx++
 				if !r.Mine(idx) {
 					continue
@@ -375,6 +382,24 @@ func TestC13(t *testing.T) {
 				}
 				res := c13Run(t, w.Root, sc, mk, p, resetW)
 				judge(p, res, "fault")
+				// (2a) a legal short read followed by a transient error (EINTR/EAGAIN) or a hard one at the next
+				// operations: "retry" logic must not resend or re-announce what was already transferred
+				if kind == "short1" || kind == "shorthalf" {
+					span := 2
+					if r.Thorough() {
+						span = 6
+					}
+					for j := i + 1; j <= i+span && j < res.leafOps && j < len(res.events); j++ {
+						for _, e2 := range []syscall.Errno{syscall.EINTR, syscall.EAGAIN, syscall.EIO} {
+							if e2 == syscall.EIO && !r.Thorough() {
+								continue
+							}
+							p2 := faultPlan{At: map[int]FsFault{i: p.At[i], j: {Err: e2}}, Desc: append(append([]string{}, p.Desc...), sprintf("%s@%d:%s(%s)", e2.Error(), j, res.events[j].Op, filepath.Base(res.events[j].Path)))}
+							res2 := c13Run(t, w.Root, sc, mk, p2, resetW)
+							judge(p2, res2, "fault2")
+						}
+					}
+				}
 				// (2) thorough: a second error at every later index of the diverged run
 				if r.Thorough() && kind == "err" {
 					for j := i + 1; j < res.leafOps && j < len(res.events); j++ {
